@@ -314,3 +314,154 @@ Example C16_example :
   rib_lookup (import [dump; FBad; upd]) (1, 7, 3) = Some (false, 9) /\
   rib_lookup (import [dump; FBad; upd]) (0, 6, 2) = Some (false, 8).
 Proof. vm_compute. repeat split; reflexivity. Qed.
+
+(* ------------------------------------------------------------------------------------------------------------ *)
+(* WHOLE QUEUES refine the per-peer ideal RIB (DESIGN 12.2: was 'proved for one dump file, else differential').
+   Class predicates (Mrt/MrtQueueSpec.v, read off the files): names_once = no peer-index entry names a peer that was
+   named before (excludes known finding C16-1, class KD); file_ok = a file with a table in front is one routecore's
+   RibEntryIterator gets through (excludes C16-2, class KP); k3_class = known finding C16-3 = C03-1. Proofs:
+   Mrt/MrtQueueRefine.v. *)
+From RV Require Import Mrt.MrtQueueSpec Mrt.MrtQueueRefine.
+
+(* For EVERY file store and EVERY queue of entries - dump files, update files, unreadable entries, in any order, an
+   entry that stands in the queue twice - outside the classes C16-1 and C16-2 (and while the 32-bit id counter does not
+   wrap): after the queue
+   (1) every peer (address, AS) the files name holds at most one ingress id;
+   (2) for a peer x that holds id i, the RIB behind the gate answers for (family, prefix, i) what the property's ideal RIB
+       (i_import = the fold of i_file over the entries) holds for (family, prefix, x) - same presence, same attributes,
+       same status - except that an entry whose (family, id) a session-wide withdrawal ever hit reads withdrawn (the
+       sticky marker, class K3; the shape of C01_pipeline_rib_answer);
+   (3) a peer without an id has no entry in the ideal RIB; (4) an id no peer holds has no route in the RIB. *)
+Theorem C16_queue_refines_ideal : forall fsys ps,
+  let fs := queue_files fsys ps in
+  let r' := (queue_run unit_start.1 unit_start.2 fs).1 in
+  names_once [] fs = true ->
+  forallb file_ok fs = true ->
+  2 + N.of_nat (length (flat_map (all_ops unit_start.1) fs)) < two32 ->
+  (forall x, (length (reg_find_peers r' (mrt_query unit_start.1 x)) <= 1)%nat) /\
+  (forall x i f p, f < 4 -> reg_find_peers r' (mrt_query unit_start.1 x) = [i] ->
+     rib_lookup (import fs) (f, p, i) =
+     match i_import fs !! (f, p, x) with
+     | Some (s, a) => Some (s && negb (downed (evs_of (import_updates fs)) (f, p, i)), a)
+     | None => None
+     end) /\
+  (forall x f p, reg_find_peers r' (mrt_query unit_start.1 x) = [] -> i_import fs !! (f, p, x) = None) /\
+  (forall i f p, (forall x, i ∉ reg_find_peers r' (mrt_query unit_start.1 x)) ->
+     rib_lookup (import fs) (f, p, i) = None).
+Proof. exact queue_refines_ideal_syntactic. Qed.
+Print Assumptions C16_queue_refines_ideal.
+
+(* Off class K3 the answer IS the ideal one; inside it the difference is exactly the recorded one: active in the ideal
+   RIB, withdrawn with the same attributes in the RIB. *)
+Theorem C16_queue_exact_off_k3 : forall fsys ps x i f p,
+  let fs := queue_files fsys ps in
+  names_once [] fs = true ->
+  forallb file_ok fs = true ->
+  2 + N.of_nat (length (flat_map (all_ops unit_start.1) fs)) < two32 ->
+  f < 4 ->
+  reg_find_peers (queue_run unit_start.1 unit_start.2 fs).1 (mrt_query unit_start.1 x) = [i] ->
+  if k3_class fs x i f p
+  then exists a, i_import fs !! (f, p, x) = Some (true, a) /\ rib_lookup (import fs) (f, p, i) = Some (false, a)
+  else rib_lookup (import fs) (f, p, i) = i_import fs !! (f, p, x).
+Proof. exact queue_exact_off_k3. Qed.
+Print Assumptions C16_queue_exact_off_k3.
+
+(* The same for the LISTS a query returns (Rib::match_prefix / the ideal RIB's listing): entry for entry, up to K3, and
+   the multicast fall-back is taken for the same queries on both sides. *)
+Theorem C16_queue_queries_refine_ideal : forall fsys ps,
+  let fs := queue_files fsys ps in
+  let r' := (queue_run unit_start.1 unit_start.2 fs).1 in
+  let h := evs_of (import_updates fs) in
+  names_once [] fs = true ->
+  forallb file_ok fs = true ->
+  2 + N.of_nat (length (flat_map (all_ops unit_start.1) fs)) < two32 ->
+  (forall f p i s a, f < 4 -> (i, s, a) ∈ rib_entries (import fs) f p ->
+     exists x s0, reg_find_peers r' (mrt_query unit_start.1 x) = [i] /\
+       (x, s0, a) ∈ i_entries (i_import fs) f p /\ s = s0 && negb (downed h (f, p, i))) /\
+  (forall f p x s0 a, f < 4 -> (x, s0, a) ∈ i_entries (i_import fs) f p ->
+     exists i, reg_find_peers r' (mrt_query unit_start.1 x) = [i] /\
+       (i, s0 && negb (downed h (f, p, i)), a) ∈ rib_entries (import fs) f p) /\
+  (forall af p, af < 2 -> exists f, f < 4 /\
+     rib_query (import fs) af p = rib_entries (import fs) f p /\
+     i_query (i_import fs) af p = i_entries (i_import fs) f p).
+Proof. exact queue_queries_refine_ideal. Qed.
+Print Assumptions C16_queue_queries_refine_ideal.
+
+(* The class C16-1 read off the files is the class as the register sees it: names_once says exactly that every
+   peer-index entry names a peer that has no id at that moment (queue_fresh, the hypothesis of
+   C16_fresh_queue_peer_stable_partial) - it excludes that class and nothing else. *)
+Theorem C16_names_once_is_fresh : forall fs,
+  2 + N.of_nat (length (flat_map (all_ops unit_start.1) fs)) < two32 ->
+  (queue_fresh unit_start.1 unit_start.2 fs <-> names_once [] fs = true).
+Proof. exact names_once_is_fresh. Qed.
+Print Assumptions C16_names_once_is_fresh.
+
+(* ... and each class hypothesis is needed: the recorded witness of C16-1 (C16_one_id_per_peer_refuted) meets file_ok
+   and not names_once, the one of C16-2 (C16_mixed_file_refuted) meets names_once and not file_ok. *)
+Theorem C16_queue_class_witnesses :
+  names_once [] two_dumps = false /\ forallb file_ok two_dumps = true /\
+  names_once [] [mixed_file] = true /\ file_ok mixed_file = false.
+Proof. exact class_witnesses. Qed.
+Print Assumptions C16_queue_class_witnesses.
+
+(* Corollary: UPDATE FILES ONLY (any number, any order, repeats, unreadable entries) - no class hypothesis is left. *)
+Theorem C16_queue_refines_ideal_updates_only : forall fsys ps,
+  let fs := queue_files fsys ps in
+  let r' := (queue_run unit_start.1 unit_start.2 fs).1 in
+  forallb update_file fs = true ->
+  2 + N.of_nat (length (flat_map (all_ops unit_start.1) fs)) < two32 ->
+  (forall x, (length (reg_find_peers r' (mrt_query unit_start.1 x)) <= 1)%nat) /\
+  (forall x i f p, f < 4 -> reg_find_peers r' (mrt_query unit_start.1 x) = [i] ->
+     rib_lookup (import fs) (f, p, i) =
+     match i_import fs !! (f, p, x) with
+     | Some (s, a) => Some (s && negb (downed (evs_of (import_updates fs)) (f, p, i)), a)
+     | None => None
+     end) /\
+  (forall x f p, reg_find_peers r' (mrt_query unit_start.1 x) = [] -> i_import fs !! (f, p, x) = None) /\
+  (forall i f p, (forall x, i ∉ reg_find_peers r' (mrt_query unit_start.1 x)) ->
+     rib_lookup (import fs) (f, p, i) = None).
+Proof. exact updates_only_refine_ideal. Qed.
+Print Assumptions C16_queue_refines_ideal_updates_only.
+
+(* Corollary: ONE DUMP (a table that names no peer twice, then records the iterator gets through), THEN UPDATE FILES. *)
+Theorem C16_queue_refines_ideal_dump_then_updates : forall fsys d ps name pit rest,
+  let fs := queue_files fsys (d :: ps) in
+  let r' := (queue_run unit_start.1 unit_start.2 fs).1 in
+  resolve fsys d = FGood name (RPit pit :: rest) ->
+  fresh_peers [] pit = true -> dump_ok (RPit pit :: rest) = true ->
+  forallb update_file (queue_files fsys ps) = true ->
+  2 + N.of_nat (length (flat_map (all_ops unit_start.1) fs)) < two32 ->
+  (forall x, (length (reg_find_peers r' (mrt_query unit_start.1 x)) <= 1)%nat) /\
+  (forall x i f p, f < 4 -> reg_find_peers r' (mrt_query unit_start.1 x) = [i] ->
+     rib_lookup (import fs) (f, p, i) =
+     match i_import fs !! (f, p, x) with
+     | Some (s, a) => Some (s && negb (downed (evs_of (import_updates fs)) (f, p, i)), a)
+     | None => None
+     end) /\
+  (forall x f p, reg_find_peers r' (mrt_query unit_start.1 x) = [] -> i_import fs !! (f, p, x) = None) /\
+  (forall i f p, (forall x, i ∉ reg_find_peers r' (mrt_query unit_start.1 x)) ->
+     rib_lookup (import fs) (f, p, i) = None).
+Proof. exact dump_then_updates_refine_ideal. Qed.
+Print Assumptions C16_queue_refines_ideal_dump_then_updates.
+
+(* non-vacuity: a dump of two peers (v4 and v6 entries), an update file (a replacement, an Established->Idle of the other
+   peer, a withdrawal, a peer the dump does not know, an announcement of the peer that went down), an unreadable entry,
+   and the update file AGAIN: the hypotheses hold; ids; RIB and ideal RIB agree, except the one K3 entry *)
+Example C16_queue_refines_example :
+  names_once [] (queue_files ex_store ex_queue) = true /\
+  forallb file_ok (queue_files ex_store ex_queue) = true /\
+  2 + N.of_nat (length (flat_map (all_ops unit_start.1) (queue_files ex_store ex_queue))) < two32 /\
+  (let r' := (queue_run unit_start.1 unit_start.2 (queue_files ex_store ex_queue)).1 in
+   reg_find_peers r' (mrt_query unit_start.1 ex_p1) = [2] /\
+   reg_find_peers r' (mrt_query unit_start.1 ex_p2) = [3] /\
+   reg_find_peers r' (mrt_query unit_start.1 ex_p3) = [4]) /\
+  (let rb := import (queue_files ex_store ex_queue) in
+   let ib := i_import (queue_files ex_store ex_queue) in
+   rib_lookup rb (0, 5, 2) = Some (true, 8) /\ ib !! (0, 5, ex_p1) = Some (true, 8) /\
+   rib_lookup rb (0, 6, 2) = Some (false, 8) /\ ib !! (0, 6, ex_p1) = Some (false, 8) /\
+   rib_lookup rb (0, 5, 4) = Some (true, 2) /\ ib !! (0, 5, ex_p3) = Some (true, 2) /\
+   rib_lookup rb (0, 5, 3) = Some (false, 4) /\ ib !! (0, 5, ex_p2) = Some (false, 4) /\
+   rib_lookup rb (1, 8, 3) = Some (false, 6) /\ ib !! (1, 8, ex_p2) = Some (true, 6) /\
+   k3_class (queue_files ex_store ex_queue) ex_p2 3 1 8 = true /\
+   k3_class (queue_files ex_store ex_queue) ex_p1 2 0 5 = false).
+Proof. exact refine_example. Qed.
